@@ -167,6 +167,39 @@ Fixpoint set_nth {A} (l : list A) (i : nat) (x : A) : list A :=
   | [], _ => []
   end.
 
+
+(* ---- validity of a message state: [wt] except that a counter member is not range-checked
+   against its type (its value is derived, possibly beyond what the type can hold: KF-F) but
+   must hold the length of the first array it counts ---- *)
+Section Valid.
+  Variable vT : ty -> value -> bool.
+  Definition valid_member (is_sz : bool) (cnt : option Z) (f : field) (v : value) : bool :=
+    if is_sz then match v, cnt with VInt z, Some n => z =? n | _, _ => false end else wt_field vT f v.
+  Fixpoint valid_fields (all_fs : list field) (all_vs : list value) (i : nat) (fs : list field) (vs : list value) : bool :=
+    match fs, vs with
+    | [], [] => true
+    | f :: r, v :: vr =>
+        valid_member (is_sizer all_fs i) (first_bound_len i all_fs all_vs) f v && valid_fields all_fs all_vs (S i) r vr
+    | _, _ => false
+    end.
+  Fixpoint valid_arms (arms : list (Z * ty)) (i : nat) (x : value) : bool :=
+    match arms, i with
+    | a :: _, O => vT (snd a) x
+    | _ :: r, S j => valid_arms r j x
+    | _, _ => false
+    end.
+End Valid.
+
+Fixpoint valid (t : ty) (v : value) {struct t} : bool :=
+  match t, v with
+  | TScalar k, VInt z => in_range k z
+  | TByte, VInt z => is_byte z
+  | TEnum vals, VInt z => existsb (Z.eqb z) vals
+  | TStruct fs, VStruct vs => valid_fields valid fs vs 0 fs vs
+  | TUnion arms, VUnion i x => valid_arms valid arms i x
+  | _, _ => false
+  end.
+
 (* ---- an array member ---- *)
 Definition array_op (f : field) (xs : list value) (o : aop) : ares :=
   let k := fst f in let t := snd f in let n := len xs in
@@ -258,7 +291,8 @@ Definition array_op (f : field) (xs : list value) (o : aop) : ares :=
       if fixed || negb comp then AStuck
       else if over_limit k (n + 1) then ARaise EProphy else ADone (VList (xs ++ [default t]))
   | AExtendVals _ vs =>
-      if fixed || negb comp then AStuck
+      (* the copied elements come out of another message of the same element type *)
+      if fixed || negb comp || negb (forallb (valid t) vs) then AStuck
       else if over_limit k (n + len vs) then ARaise EProphy else ADone (VList (xs ++ vs))
   | _ => AStuck
   end.
@@ -310,6 +344,18 @@ Definition op_index (o : aop) : option nat :=
   | ADisc _ => None
   end.
 
+(* the arm a discriminator value (number, or arm name interned by position) selects *)
+Definition disc_matches (d : pyval) (j : nat) (a : Z * ty) : bool :=
+  match d with
+  | PStr k => Z.of_nat j =? k
+  | _ => match int_of d with Some z => z =? fst a | None => false end
+  end.
+Fixpoint find_arm (d : pyval) (j : nat) (l : list (Z * ty)) : option (nat * ty) :=
+  match l with
+  | [] => None
+  | a :: r => if disc_matches d j a then Some (j, snd a) else find_arm d (S j) r
+  end.
+
 (* an operation applied to the object (t, v) itself *)
 Definition object_op (t : ty) (v : value) (o : aop) : ares :=
   match t, v with
@@ -337,17 +383,7 @@ Definition object_op (t : ty) (v : value) (o : aop) : ares :=
   | TUnion arms, VUnion cur x =>
       match o with
       | ADisc d =>
-          let matches (j : nat) (a : Z * ty) : bool :=
-            match d with
-            | PStr k => Z.of_nat j =? k            (* arm names are interned by position *)
-            | _ => match int_of d with Some z => z =? fst a | None => false end
-            end in
-          let fix find (j : nat) (l : list (Z * ty)) : option (nat * ty) :=
-            match l with
-            | [] => None
-            | a :: r => if matches j a then Some (j, snd a) else find (S j) r
-            end in
-          match find O arms with
+          match find_arm d O arms with
           | Some (j, ta) => if Nat.eqb j cur then ADone v else ADone (VUnion j (default ta))
           | None => ARaise EProphy
           end
